@@ -47,11 +47,13 @@ type faultyClient struct {
 	rfaults []readFault
 	calls   int
 	trace   []string
+	fired   map[string]int // stream faults that actually fired, per file (each ResumableReader has its own retry budget)
 }
 
 func (c *faultyClient) arm(f string, partial int, rf []readFault) {
 	c.mu.Lock()
 	c.armed, c.partial, c.rfaults, c.calls = []byte(f), partial, append([]readFault(nil), rf...), 0
+	c.fired = map[string]int{}
 	c.mu.Unlock()
 }
 
@@ -106,9 +108,10 @@ func (c *faultyClient) WriteLTXFile(ctx context.Context, level int, minTXID, max
 }
 
 type faultyStream struct {
-	c   *faultyClient
-	rc  io.ReadCloser
-	pos int
+	c    *faultyClient
+	rc   io.ReadCloser
+	pos  int
+	name string
 }
 
 func (s *faultyStream) Read(p []byte) (int, error) {
@@ -124,6 +127,7 @@ func (s *faultyStream) Read(p []byte) (int, error) {
 		if room <= 0 {
 			c.mu.Lock()
 			c.rfaults = c.rfaults[1:]
+			c.fired[s.name]++
 			c.trace = append(c.trace, fmt.Sprintf("  stream fault %s at %d", rf.Kind, s.pos))
 			c.mu.Unlock()
 			if rf.Kind == "eof" {
@@ -151,7 +155,7 @@ func (c *faultyClient) OpenLTXFile(ctx context.Context, level int, minTXID, maxT
 	if err != nil {
 		return nil, err
 	}
-	return &faultyStream{c: c, rc: rc, pos: int(offset)}, nil
+	return &faultyStream{c: c, rc: rc, pos: int(offset), name: fmt.Sprintf("%d/%d-%d", level, minTXID, maxTXID)}, nil
 }
 
 // ---- case ----
@@ -420,7 +424,7 @@ type stepOut struct {
 }
 
 // runCase executes the steps; returns the first violation / disagreement.
-func runCase(drv *hx.Driver, c Case, scratch string, res *hx.Result) (viol string, vstep int, disagree string, trace []string) {
+func runCase(drv *hx.Driver, c Case, scratch string, res *counter) (viol string, vstep int, disagree string, trace []string) {
 	root, err := os.MkdirTemp(scratch, "case-")
 	if err != nil {
 		hx.Fatal(err)
@@ -492,7 +496,7 @@ func runCase(drv *hx.Driver, c Case, scratch string, res *hx.Result) (viol strin
 				hx.Fatal(err)
 			}
 			impl := fmt.Sprintf("res=%s remote=%s pos=%d calls=%d", kind, joinInts(after), e.db.Replica.Pos().TXID, calls)
-			model, err := drv.Ask(line)
+			model, err := ask(drv, line)
 			if err != nil {
 				hx.Fatal(err)
 			}
@@ -531,14 +535,20 @@ func runCase(drv *hx.Driver, c Case, scratch string, res *hx.Result) (viol strin
 					nsrc++
 				}
 			}
-			reads := 1
-			if len(st.RFaults) > 3 {
-				reads = 0
-			}
-			line := fmt.Sprintf("compact NSRC=%d LOCAL=0 READS=%d F=%s", nsrc, reads, st.Faults)
 			e.fc.arm(st.Faults, st.Partial, st.RFaults)
 			comp := litestream.NewCompactor(e.fc, quiet)
 			_, cerr := comp.Compact(ctx, 1)
+			// whether every source stream was delivered is decided by the environment: a reader gives up
+			// after more than 3 faults that really fired on its file (faults beyond the file's end never fire)
+			reads := 1
+			e.fc.mu.Lock()
+			for _, n := range e.fc.fired {
+				if n > 3 {
+					reads = 0
+				}
+			}
+			e.fc.mu.Unlock()
+			line := fmt.Sprintf("compact NSRC=%d LOCAL=0 READS=%d F=%s", nsrc, reads, st.Faults)
 			e.fc.arm("", 0, nil)
 			kind := "ok"
 			if errors.Is(cerr, litestream.ErrNoCompaction) {
@@ -552,7 +562,7 @@ func runCase(drv *hx.Driver, c Case, scratch string, res *hx.Result) (viol strin
 				written = 1
 			}
 			impl := fmt.Sprintf("res=%s written=%d", kind, written)
-			model, err := drv.Ask(line)
+			model, err := ask(drv, line)
 			if err != nil {
 				hx.Fatal(err)
 			}
@@ -616,7 +626,40 @@ func genFaults(r *hx.Rand, n int) string {
 	return strings.TrimRight(string(b), "o")
 }
 
+// genCompactCase: directed — replicate a few transactions cleanly, then compact while the downloads
+// of the source files break mid-stream, below and beyond the resumable reader's retry budget.
+func genCompactCase(r *hx.Rand) Case {
+	c := Case{Seed: r.Uint64()}
+	for i, n := 0, 2+r.Intn(3); i < n; i++ {
+		c.Steps = append(c.Steps, Step{Op: "commit", N: 1 + r.Intn(3)}, Step{Op: "rsync"})
+	}
+	for round := 0; round < 2; round++ {
+		st := Step{Op: "compact"}
+		k := 1 + r.Intn(3)
+		if r.Chance(60) {
+			k = 4 + r.Intn(2)
+		}
+		at := 100 + r.Intn(250)
+		for j := 0; j < k; j++ {
+			kind := "err"
+			if r.Bool() {
+				kind = "eof"
+			}
+			st.RFaults = append(st.RFaults, readFault{After: at, Kind: kind})
+			at += r.Intn(60)
+		}
+		if r.Chance(20) {
+			st.Faults = genFaults(r, 2+r.Intn(4))
+		}
+		c.Steps = append(c.Steps, st, Step{Op: "commit", N: 1}, Step{Op: "rsync", Faults: genFaults(r, r.Intn(3))})
+	}
+	return c
+}
+
 func genCase(r *hx.Rand) Case {
+	if r.Chance(25) {
+		return genCompactCase(r)
+	}
 	c := Case{Seed: r.Uint64()}
 	n := 6 + r.Intn(10)
 	c.Steps = append(c.Steps, Step{Op: "commit", N: 1 + r.Intn(3)})
@@ -655,6 +698,19 @@ func genCase(r *hx.Rand) Case {
 
 var zeroT = litestream.NewRestoreOptions().Timestamp
 
+var drvMu sync.Mutex
+
+func ask(drv *hx.Driver, line string) (string, error) {
+	drvMu.Lock()
+	defer drvMu.Unlock()
+	return drv.Ask(line)
+}
+
+// counter collects distribution keys of one case (cases run in parallel; merged afterwards)
+type counter struct{ keys []string }
+
+func (c *counter) Count(k string) { c.keys = append(c.keys, k) }
+
 type Payload struct {
 	Engine string   `json:"engine"`
 	Case   Case     `json:"case"`
@@ -680,7 +736,7 @@ func sigOf(v string) string {
 
 func shrinkCase(drv *hx.Driver, c Case, scratch string, sig string) Case {
 	fails := func(x Case) bool {
-		v, _, _, _ := runCase(drv, x, scratch, hx.NewResult(&hx.Opts{Replays: os.TempDir()}, "shrink"))
+		v, _, _, _ := runCase(drv, x, scratch, &counter{})
 		return v != "" && sigOf(v) == sig
 	}
 	for changed, rounds := true, 0; changed && rounds < 4; rounds++ {
@@ -696,8 +752,25 @@ func shrinkCase(drv *hx.Driver, c Case, scratch string, sig string) Case {
 	return c
 }
 
+type caseOut struct {
+	v     string
+	vstep int
+	dis   string
+	trace []string
+	cnt   counter
+}
+
 func evalCase(res *hx.Result, drv *hx.Driver, c Case, scratch string, shrink bool) bool {
-	v, vstep, dis, trace := runCase(drv, c, scratch, res)
+	var o caseOut
+	o.v, o.vstep, o.dis, o.trace = runCase(drv, c, scratch, &o.cnt)
+	return judgeCase(res, drv, c, o, scratch, shrink)
+}
+
+func judgeCase(res *hx.Result, drv *hx.Driver, c Case, o caseOut, scratch string, shrink bool) bool {
+	v, vstep, dis, trace := o.v, o.vstep, o.dis, o.trace
+	for _, k := range o.cnt.keys {
+		res.Count(k)
+	}
 	b, _ := json.Marshal(c)
 	nfault := 0
 	for _, s := range c.Steps {
@@ -717,7 +790,7 @@ func evalCase(res *hx.Result, drv *hx.Driver, c Case, scratch string, shrink boo
 		}
 		if shrink {
 			mc = shrinkCase(drv, mc, scratch, sig)
-			v2, _, _, t2 := runCase(drv, mc, scratch, hx.NewResult(&hx.Opts{Replays: os.TempDir()}, "shrink"))
+			v2, _, _, t2 := runCase(drv, mc, scratch, &counter{})
 			if v2 != "" {
 				v, trace = v2, t2
 			}
@@ -798,13 +871,30 @@ func main() {
 		}
 	}
 	r := hx.NewRand(o.Seed)
-	n := 60
+	n := 120
 	if o.Tier == "thorough" {
 		n = 600
 	}
-	for i := 0; i < n; i++ {
-		c := genCase(r)
-		evalCase(res, drv, c, scratch, true)
+	cases := make([]Case, n)
+	for i := range cases {
+		cases[i] = genCase(r)
+	}
+	outs := make([]caseOut, n)
+	var wg sync.WaitGroup
+	sem := make(chan struct{}, 8)
+	for i := range cases {
+		wg.Add(1)
+		sem <- struct{}{}
+		go func(i int) {
+			defer wg.Done()
+			defer func() { <-sem }()
+			o := &outs[i]
+			o.v, o.vstep, o.dis, o.trace = runCase(drv, cases[i], scratch, &o.cnt)
+		}(i)
+	}
+	wg.Wait()
+	for i, c := range cases {
+		judgeCase(res, drv, c, outs[i], scratch, true)
 		if i < 3 {
 			res.Sample(c)
 		}
